@@ -66,7 +66,11 @@ struct SlabEngine : Engine {
 		static std::string s[PC_N * MT_N];
 		static const char *mn[] = {"SimMutex", "ticket_spinlock", "simple_spinlock"};
 		if (c < 0 || c >= PC_N * MT_N) return "?";
-		if (s[c].empty()) s[c] = std::string(policy_info[c / MT_N].name) + " / " + mn[c % MT_N];
+		if (s[c].empty()) {
+			const PolicyInfo &q = policy_info[c / MT_N]; char b[200];
+			snprintf(b, sizeof b, "%s:%s%s,page 0x%zx,slab 0x%zx,sb 0x%zx,%d buckets / %s", q.name, q.aligned ? "aligned" : "unaligned", q.poison ? ",poison" : "", q.pagesize, q.slabsize, q.sb_size, q.num_buckets, mn[c % MT_N]);
+			s[c] = b;
+		}
 		return s[c].c_str();
 	}
 	const char *property_of(const std::string &cls, const std::string &prof) override {
@@ -113,13 +117,20 @@ struct SlabEngine : Engine {
 	void generate(Rng &rng, Plan &p, const std::string &prof, int tier) override {
 		int c = (int)rng.below(100);
 		int polc;
-		if (prof == "C03") { static const int w[PC_N] = {4, 18, 5, 9, 5, 14, 10, 4, 12, 4, 3, 12}; int acc = 0; polc = PC_A1; for (int i = 0; i < PC_N; i++) { acc += w[i]; if (c < acc) { polc = i; break; } } }
-		else { static const int w[PC_N] = {6, 14, 12, 6, 11, 10, 8, 7, 8, 6, 6, 6}; int acc = 0; polc = PC_A1; for (int i = 0; i < PC_N; i++) { acc += w[i]; if (c < acc) { polc = i; break; } } }
+		{ // weighted choice over all compiled geometries: the two 256 KiB-slab defaults are expensive, poison matters most for C03
+			int w[PC_N], tot = 0;
+			for (int i = 0; i < PC_N; i++) { w[i] = policy_info[i].slabsize >= 0x40000 ? 5 : 10; if (prof == "C03" && policy_info[i].poison) w[i] *= 2; tot += w[i]; }
+			int r = (int)rng.below(tot); polc = 0;
+			for (int i = 0; i < PC_N; i++) { if (r < w[i]) { polc = i; break; } r -= w[i]; }
+			(void)c;
+		}
 		int m = (int)rng.below(100);
 		int mtx = m < 50 ? MT_SIM : m < 78 ? MT_TICKET : MT_SIMPLE;
 		if (p.knobs.count("force_cfg")) { polc = (int)p.knobs["force_cfg"] / MT_N; mtx = (int)p.knobs["force_cfg"] % MT_N; }
 		p.cfg = polc * MT_N + mtx;
 		const PolicyInfo &P = policy_info[polc];
+		// the geometry is recorded by value so that a replay finds it even if the compiled list differs
+		p.knobs["g_page"] = (int64_t)P.pagesize; p.knobs["g_slab"] = (int64_t)P.slabsize; p.knobs["g_sb"] = (int64_t)P.sb_size; p.knobs["g_nb"] = P.num_buckets; p.knobs["g_al"] = P.aligned; p.knobs["g_po"] = P.poison;
 		bool multi;
 		if (prof == "C05") multi = true;
 		else if (prof == "C04") multi = rng.chance(35, 100);
@@ -307,13 +318,21 @@ struct SlabEngine : Engine {
 	}
 
 	// ------------------------------------------------------------ setup
+	int resolve_pc(const Plan &p) {
+		int want = p.cfg / MT_N;
+		if (!p.knobs.count("g_page")) return want < PC_N ? want : 0;
+		for (int k = 0; k < PC_N; k++) { int i = (want + k) % PC_N; const PolicyInfo &q = policy_info[i];
+			if ((int64_t)q.pagesize == p.knob("g_page") && (int64_t)q.slabsize == p.knob("g_slab") && (int64_t)q.sb_size == p.knob("g_sb") && q.num_buckets == p.knob("g_nb") && q.aligned == (p.knob("g_al") != 0) && q.poison == (p.knob("g_po") != 0)) return i; }
+		fprintf(stderr, "geometry of this plan is not compiled into this binary (page 0x%llx slab 0x%llx sb 0x%llx nb %lld): rebuild with VERIF_GEOMS\n", (long long)p.knob("g_page"), (long long)p.knob("g_slab"), (long long)p.knob("g_sb"), (long long)p.knob("g_nb"));
+		exit(3);
+	}
 	void prepare(const Plan &p) override {
-		pc = p.cfg / MT_N; pi = policy_info[pc];
+		pc = resolve_pc(p); pi = policy_info[pc];
 		policy_base = (size_t)16 << 20; policy_top = arena_size - (1 << 20);
 		calibrate_all();
 	}
 	void setup(const Plan &p) override {
-		pc = p.cfg / MT_N; mt = p.cfg % MT_N; pi = policy_info[pc];
+		pc = resolve_pc(p); mt = p.cfg % MT_N; pi = policy_info[pc];
 		api = mt == MT_SIM ? &slab_api_sim : mt == MT_TICKET ? &slab_api_ticket : &slab_api_simple;
 		profile = p.profile; single = p.ntasks == 1; cur_plan = &p; calibrating = false;
 		faultfree = true; for (auto &o : p.ops) if (o.mapfail) faultfree = false;
